@@ -19,6 +19,9 @@ package main
 import (
 	"context"
 	"fmt"
+	"os"
+	"path/filepath"
+	"runtime/pprof"
 	"strings"
 	"sync"
 	"sync/atomic"
@@ -84,7 +87,8 @@ type invocation struct {
 
 	nexec    atomic.Int32 // slot allocator: touched once, at the very beginning of each body
 	overflow atomic.Int32
-	slots    [maxExec]slot
+	slots    []slot // maxExec in the mixed family, 4 in the lastdone family (allocation is costly under tsan)
+	pre      time.Duration // famLastDone: precise wait between the round barrier and the call
 
 	// written by the invoker goroutine (the task.start / task.cancel handlers run on that very
 	// goroutine and find the invocation through its goroutine id); read after the join
@@ -101,6 +105,7 @@ type burst struct {
 	Before time.Duration
 	N      int
 	Hold   time.Duration
+	Spin   time.Duration // famLastDone: precise wait between opening the round barrier and the Done calls
 }
 
 type prioClient struct {
@@ -116,7 +121,18 @@ type invokerScript struct {
 	cur   *invocation // goroutine-local: the invocation this invoker is inside
 }
 
+const (
+	famMixed    = 0 // the general family (genScenario)
+	famLastDone = 1 // the last prioritized task ends while many invokers arrive (genLastDone)
+)
+
 type scenario struct {
+	family   int
+	// famLastDone: the scenario is a sequence of rounds; round r is opened by the prioritized
+	// client (barrier[r]) after its begins and after every invocation of round r-1 has returned
+	// (roundWG[r-1]), so a later round can never rescue an invoker that got stuck in an earlier one.
+	barrier []chan struct{}
+	roundWG []sync.WaitGroup
 	idx      int
 	conc     int
 	silence  time.Duration
@@ -136,29 +152,168 @@ func main() {
 		"each case is one scenario drawn from the seed: one BackgroundTaskManager (concurrency 1-4, silence 0-30ms), 1-16 invokers x 1-2 invocations "+
 			"(readAt-style closure writing named results and a buffer, like layer.backgroundFetch), 0-8 prioritized clients issuing begin/end bursts, "+
 			"per-execution body scripts immediate/late/at-end/probe; non-trivial = at least one body was cancelled by a prioritized begin and its invocation "+
-			"was executed again (>=2 executions of one invocation) and every invocation completed; distinct by the scenario script",
-		200, 6000, body)
+			"was executed again (>=2 executions of one invocation) and every invocation completed; distinct by the scenario script. "+
+			"Second family (lastdone): silence 0-1ms, one prioritized burst whose Done lands while 8-32 invokers enter InvokeBackgroundTask within microseconds, nothing later; "+
+			"non-trivial = invocations were entered on both sides of the announcement of the last decrement. Both families must reach their own floor",
+		700, 13000, body)
 }
+
+// floors of the two families (quick, thorough)
+func floors(r *vf.Run) (int, int) { return r.N(200, 5000), r.N(500, 8000) }
 
 func body(r *vf.Run) {
 	verifhook.SetHandler(hookHandler)
 	defer verifhook.SetHandler(nil)
-	n := r.N(1200, 40000)
+	if pf := os.Getenv("VERIF_C13_PROF"); pf != "" && r.Child == "" { // debugging aid
+		f, _ := os.Create(pf)
+		pprof.StartCPUProfile(f)
+		defer pprof.StopCPUProfile()
+	}
+	if r.Child == "lastdone" {
+		lastDoneStage(r)
+		return
+	}
+	f1, f2 := floors(r)
+	n := r.N(1200, 30000)
 	group := r.N(6, 8)
+	stuck := false
+	// debugging aid only (measuring one family's detection power): VERIF_C13_FAMILY=lastdone|mixed
+	only := os.Getenv("VERIF_C13_FAMILY")
+	if only == "lastdone" {
+		n = 0
+	}
 	for base := 0; base < n; base += group {
 		var scs []*scenario
 		for i := base; i < base+group && i < n; i++ {
 			scs = append(scs, genScenario(r.RNG(uint64(i)), i))
 		}
 		if !runGroup(r, scs) {
+			stuck = true
 			break // a stuck group leaves goroutines behind: later dumps would be polluted
 		}
+	}
+	// Family 2 (lastdone) runs as a child stage in the PLAIN build: it looks for a lost wake-up,
+	// not for a race, and under tsan every goroutine start costs ~100us (history_size=5), which
+	// would allow only a few thousand trials per minute instead of tens of thousands.
+	n2 := -1
+	if !stuck && only != "mixed" {
+		cf := filepath.Join(r.Scratch, "lastdone.count")
+		ex := r.RunChild(vf.ChildSpec{Stage: "lastdone", Race: false, Timeout: time.Duration(r.N(6, 30)) * time.Minute, Env: []string{"C13_COUNT_FILE=" + cf}})
+		if b, err := os.ReadFile(cf); err == nil && ex.Partial {
+			fmt.Sscanf(string(b), "%d", &n2)
+		} else {
+			r.Inconclusive("lastdone child stage did not deliver a result (exit " + fmt.Sprint(ex.ExitCode) + " " + ex.Signal + ")")
+			r.Logf("lastdone child failed: %s", ex.Tail)
+		}
+	}
+	// Each family has its own floor but vf knows only one number (f1+f2). The child hands over at
+	// most f2 of its non-trivial cases, the parent hands over its own only if BOTH families
+	// reached their floor: so the sum reaches f1+f2 iff both did (real numbers: see the keys below).
+	r.Set("nontrivial_mixed_family", len(ntMixed))
+	r.Set("nontrivial_lastdone_family", n2)
+	r.Set("family_floors", map[string]int{"mixed": f1, "lastdone": f2})
+	if only != "" {
+		r.Inconclusive("VERIF_C13_FAMILY is set: only one family was run")
+	} else if len(ntMixed) >= f1 && n2 >= f2 {
+		for _, d := range ntMixed {
+			r.NonTrivial(d)
+		}
+	} else if !stuck && r.Violations() == 0 {
+		r.Inconclusive(fmt.Sprintf("a scenario family stayed below its floor (mixed %d/%d, lastdone %d/%d)", len(ntMixed), f1, n2, f2))
 	}
 	r.AccountOwnRaces([]string{"task."}, nil)
 	r.Assume("CLOCK_MONOTONIC (time.Since) is consistent across CPUs: stamps taken inside an interval on different goroutines order real events")
 	r.Assume("time.Sleep(d) pauses for at least d (Go documentation); the silence comparison allows 20us on top")
 	r.Assume("runtime.Stack(all) is an atomic snapshot of goroutine states (stop-the-world); goroutines blocked on chan/select/cond/semaphore without a runnable, sleeping or syscall goroutine of the workload cannot be woken except by a context timer of 1h")
 	r.Assume("hook points of task/task.go are where MANIFEST.hooks says: pbegin/start inside prioritizedTaskStartNotifyMu, pend before the atomic decrement")
+}
+
+// lastDoneStage (child, plain build): thousands of tiny scenarios around ONE instant — the
+// decrement+broadcast of the last prioritized task of a round while 8-32 invokers enter
+// InvokeBackgroundTask, nothing afterwards that could rescue an invoker whose wake-up got
+// lost. Judged by the same state-based quiescence decision
+// (completion:invocation-pending-at-quiescence); all other clauses are evaluated as well.
+func lastDoneStage(r *vf.Run) {
+	_, f2 := floors(r)
+	n2 := r.N(2000, 30000)
+	group2 := 4
+	for base := 0; base < n2; base += group2 {
+		var scs []*scenario
+		for i := base; i < base+group2 && i < n2; i++ {
+			scs = append(scs, genLastDone(r.RNG(7, uint64(i)), lastDoneBase+i))
+		}
+		if !runGroup(r, scs) {
+			break
+		}
+	}
+	for i, d := range ntLastDone {
+		if i >= f2 {
+			break // see body(): at most f2 are handed over
+		}
+		r.NonTrivial(d)
+	}
+	if cf := os.Getenv("C13_COUNT_FILE"); cf != "" {
+		_ = os.WriteFile(cf, []byte(fmt.Sprint(len(ntLastDone))), 0o644)
+	}
+}
+
+const lastDoneBase = 10000000 // case numbers of the second family
+
+// non-trivial scenario descriptors per family (appended by analyze on the driver goroutine only)
+var ntMixed, ntLastDone []string
+
+// genLastDone: silence 0-1ms; 4-8 rounds, each: one prioritized burst (1-3 nested begins) whose
+// Done calls land while 8-32 invokers call InvokeBackgroundTask within a few (hundred)
+// microseconds around the moment of the last decrement; trivial bodies; nothing else. The next
+// round starts only after every invocation of the round has returned.
+func genLastDone(rng *prng.R, idx int) *scenario {
+	sc := &scenario{family: famLastDone, idx: idx, release: make(chan struct{})}
+	sc.conc = rng.Range(1, 4)
+	sc.silence = time.Duration(rng.Pick(0, 0, 0, 0, 50, 100, 300, 1000)) * time.Microsecond
+	rounds := rng.Range(4, 8)
+	ninv := rng.Range(8, 32)
+	sc.barrier = make([]chan struct{}, rounds)
+	sc.roundWG = make([]sync.WaitGroup, rounds)
+	pc := &prioClient{}
+	sc.clients = []*prioClient{pc}
+	for i := 0; i < ninv; i++ {
+		sc.invokers = append(sc.invokers, &invokerScript{})
+	}
+	var sb strings.Builder
+	fmt.Fprintf(&sb, "lastdone conc=%d silence=%s invokers=%d", sc.conc, sc.silence, ninv)
+	for r := 0; r < rounds; r++ {
+		sc.barrier[r] = make(chan struct{})
+		sc.roundWG[r].Add(ninv)
+		b := burst{N: rng.Pick(1, 1, 1, 2, 3), Spin: time.Duration(rng.Range(0, 200)) * time.Microsecond}
+		pc.bursts = append(pc.bursts, b)
+		// the last decrement happens about Spin+silence (+ goroutine start) after the barrier;
+		// arrivals uniformly in [centre-1.5*spread, centre+0.5*spread]: most invokers test the
+		// counter shortly BEFORE the decrement, a few after
+		centre := b.Spin + sc.silence
+		su := rng.Pick(0, 20, 50, 100, 250)
+		fmt.Fprintf(&sb, " | round%d x%d done+%s arrivals~%s±%dus", r, b.N, b.Spin, centre, su)
+		for i, is := range sc.invokers {
+			d := centre + time.Duration(rng.Range(0, 2*su)-su*3/2)*time.Microsecond
+			if d < 0 || su == 0 {
+				d = 0 // su==0: everybody calls right at the barrier
+			}
+			inv := &invocation{sc: sc, id: r*100 + i, timeout: longTO, scripts: []execScript{{Kind: kImmediate}}, slots: make([]slot, 4), pre: d}
+			is.invs = append(is.invs, inv)
+		}
+	}
+	sc.desc = sb.String()
+	return sc
+}
+
+// spinFor waits for d with microsecond precision: the coarse part with time.Sleep, the last
+// 60us (time.Sleep alone is far too coarse for a window of microseconds) by busy-waiting.
+func spinFor(d time.Duration) {
+	end := now() + int64(d)
+	if d > 120*time.Microsecond {
+		time.Sleep(d - 60*time.Microsecond)
+	}
+	for now() < end {
+	}
 }
 
 func ms(rng *prng.R, lo, hi int) time.Duration {
@@ -176,7 +331,7 @@ func genScenario(rng *prng.R, idx int) *scenario {
 	for i := 0; i < ninv; i++ {
 		is := &invokerScript{delay: ms(rng, 0, 40)}
 		for j, k := 0, rng.Range(1, 2); j < k; j++ {
-			inv := &invocation{sc: sc, id: id, timeout: longTO, gap: ms(rng, 0, 10)}
+			inv := &invocation{sc: sc, id: id, timeout: longTO, gap: ms(rng, 0, 10), slots: make([]slot, maxExec)}
 			id++
 			probeInv := false
 			for e, l := 0, rng.Range(1, 4); e < l; e++ {
@@ -262,7 +417,7 @@ func (inv *invocation) readAt(p []int64) (retN int64, retErr error) {
 	sc := inv.sc
 	sc.mgr.InvokeBackgroundTask(func(ctx context.Context) {
 		k := int(inv.nexec.Add(1)) - 1
-		if k >= maxExec {
+		if k >= len(inv.slots) {
 			inv.overflow.Add(1)
 			return
 		}
@@ -343,7 +498,11 @@ func (sc *scenario) invoker(is *invokerScript) {
 	invokers.Store(id, is)
 	defer invokers.Delete(id)
 	time.Sleep(is.delay)
-	for _, inv := range is.invs {
+	for r, inv := range is.invs {
+		if sc.barrier != nil {
+			<-sc.barrier[r]
+			spinFor(inv.pre)
+		}
 		p := make([]int64, 4)
 		is.cur = inv
 		inv.call = now()
@@ -356,16 +515,28 @@ func (sc *scenario) invoker(is *invokerScript) {
 		}
 		inv.gotN, inv.gotErr = n+0*sum, err
 		inv.returned.Store(true)
+		if sc.barrier != nil {
+			sc.roundWG[r].Done()
+		}
 		time.Sleep(inv.gap)
 	}
 }
 
 func (sc *scenario) prioClient(pc *prioClient) {
-	for _, b := range pc.bursts {
+	for r, b := range pc.bursts {
+		if sc.barrier != nil && r > 0 {
+			sc.roundWG[r-1].Wait() // every invocation of the previous round has returned
+		}
 		time.Sleep(b.Before)
 		for i := 0; i < b.N; i++ {
 			sc.mgr.DoPrioritizedTask()
 			pc.after = append(pc.after, now())
+		}
+		if sc.barrier != nil {
+			// the client itself (a workload goroutine for the quiescence snapshot) opens the
+			// barrier the invokers are parked on, then ends its tasks a moment later
+			close(sc.barrier[r])
+			spinFor(b.Spin)
 		}
 		time.Sleep(b.Hold)
 		for i := 0; i < b.N; i++ {
@@ -417,8 +588,8 @@ func (sc *scenario) allInvocations() []*invocation {
 
 func (inv *invocation) nslots() int {
 	n := int(inv.nexec.Load())
-	if n > maxExec {
-		n = maxExec
+	if n > len(inv.slots) {
+		n = len(inv.slots)
 	}
 	return n
 }
